@@ -1149,6 +1149,18 @@ def drv_bridge(case):
                 "res": [[0, proj.I(x)] for x in numpy.asarray(res_dd).tolist()], "dtype": str(numpy.asarray(res_dd).dtype), "same_dict": True})
     out.append({"op": "construct", "vars": pv, "dict": [[tok(k), proj.I(v)] for k, v in dd.items()], "kind": "lower", "fnvals": [],
                 "res": [[0, proj.I(x)] for x in numpy.asarray(arr.construct(dict(d))).tolist()], "dtype": "int64", "dict_after": True})
+    # dictionaries that answer for missing keys themselves (Counter, defaultdict): an id that was not GIVEN still gets the declared default,
+    # and the caller's dictionary is only read
+    import collections
+    for mk_, tag in ((lambda: collections.Counter(d), "counter"), (lambda: collections.defaultdict(lambda: 99, d), "defaultdict")):
+        for kw, kind, fn in (({}, "lower", {}), ({"dtype": numpy.float64}, "nan", {}), ({"default_value": (lambda v: 40 + len(str(v.id)))}, "fn", {v.id: 40 + len(str(v.id)) for v in vs})):
+            dx = mk_()
+            res = arr.construct(dx, **kw)
+            r = [[1, 0] if (isinstance(x, float) and x != x) else [0, proj.I(x)] for x in numpy.asarray(res).tolist()]
+            out.append({"op": "construct", "vars": pv, "dict": [[tok(k), proj.I(v)] for k, v in d.items()], "kind": kind, "fnvals": [[tok(k), v] for k, v in fn.items()],
+                        "res": r, "dtype": str(numpy.asarray(res).dtype), "mapping": tag})
+            out.append({"op": "construct", "vars": pv, "dict": [[tok(k), proj.I(v)] for k, v in dict(dx).items()], "kind": "lower", "fnvals": [],
+                        "res": [[0, proj.I(x)] for x in numpy.asarray(arr.construct(dict(d))).tolist()], "dtype": "int64", "dict_after": True, "mapping": tag})
     out.append({"op": "partition", "vars": pv, "bool_idx": [proj.I(x) for x in numpy.asarray(arr.boolean_variable_indices).tolist()],
                 "int_idx": [proj.I(x) for x in numpy.asarray(arr.integer_variable_indices).tolist()]})
     # the same two sets asked for with the plain-string / numpy-string spelling of the dtype (puan.Dtype is a str enum)
@@ -1175,8 +1187,13 @@ def drv_bridge(case):
     if lst and not tuple_first and len(case["vars"]) % 2:
         # the list given as variable OBJECTS (declared with other bounds than the context's variables: a variable is its id)
         lobj = [puan.variable(x, (-3, 9)) for x in lst]
-        b1 = pnd.boolean_ndarray.from_list(lobj, list(vs))
-        i1 = pnd.integer_ndarray.from_list(lobj, list(vs))
+        sel_ = (len(lst) + len(str(lst[0]))) % 3
+        if sel_ == 0:                                      # objects on both sides
+            b1 = pnd.boolean_ndarray.from_list(lobj, list(vs)); i1 = pnd.integer_ndarray.from_list(lobj, list(vs))
+        elif sel_ == 1:                                    # objects in the list, bare ids (strings, numbers, ...) in the context
+            b1 = pnd.boolean_ndarray.from_list(lobj, list(ctx)); i1 = pnd.integer_ndarray.from_list(lobj, list(ctx))
+        else:                                              # bare ids in the list, objects in the context
+            b1 = pnd.boolean_ndarray.from_list(list(lst), list(vs)); i1 = pnd.integer_ndarray.from_list(list(lst), list(vs))
     ev = {"op": "lists", "vars": pv, "ctx": [tok(x) for x in ctx], "lst": [tok(x) for x in lst],
           "bool_ok": not tuple_first,
           "bool_arr": [proj.I(x) for x in numpy.asarray(b1).tolist()] if b1 is not None else [0] * len(ctx),
